@@ -3910,7 +3910,12 @@ public:
     //! @brief Checks if has value
     constexpr bool has_value() const noexcept
     {
-        return (val != Derived::null_value());
+        // NaN (the default `nullValue` of `float`/`double`) never compares
+        // equal, not even to itself
+        return !(
+            (val == Derived::null_value())
+            || ((Derived::null_value() != Derived::null_value())
+                && (val != val)));
     }
 
     //! @brief Checks if has value
@@ -3930,7 +3935,8 @@ public:
     constexpr friend bool
         operator==(const optional_base& lhs, const optional_base& rhs) noexcept
     {
-        return *lhs == *rhs;
+        return (lhs && rhs) ? (*lhs == *rhs)
+                            : (lhs.has_value() == rhs.has_value());
     }
 
 #ifdef SBEPP_DOXYGEN
@@ -3940,7 +3946,7 @@ public:
 #endif
 
 #if SBEPP_HAS_THREE_WAY_COMPARISON
-    constexpr friend std::strong_ordering
+    constexpr friend std::compare_three_way_result_t<T>
         operator<=>(const optional_base& lhs, const optional_base& rhs) noexcept
     {
         if(lhs && rhs)
@@ -3955,7 +3961,7 @@ public:
     constexpr friend bool
         operator!=(const optional_base& lhs, const optional_base& rhs) noexcept
     {
-        return *lhs != *rhs;
+        return !(lhs == rhs);
     }
 
     //! @brief Tests if `lhs` is less than `rhs`
